@@ -92,5 +92,7 @@ static inline std::vector<Pt> grid(const std::vector<int>& vars, int n, const LD
   }
   return out;
 }
+// a point far outside the first period / unit box, mixed signs (periodic folding, sign-dependent shortcuts)
+static inline Pt far_point() { return Pt(-5.40625L, 7.28125L, -9.09375L, 6.21875L); }
 // generic asymmetric dyadic coordinate values (x != y != z != t, none a zero of sin/cos for base wave numbers)
 static const LD GENERIC_VALS[4][3] = {{dy(320), dy(1104), dy(2352)}, {dy(448), dy(928), dy(1936)}, {dy(288), dy(1248), dy(2656)}, {dy(128), dy(800), dy(3168)}};
